@@ -56,7 +56,7 @@ class Tap:
         # events are logged where the host receives them (Host.on_packet), however the controller schedules the delivery
         orig_on_packet = host.on_packet
 
-        def on_packet(packet):
+        def on_packet(_host, packet):
             b = bytes(packet)
             if b and b[0] == 0x04 and len(b) >= 2:
                 self.log.append(('evt', b[1], b))
@@ -68,7 +68,10 @@ class Tap:
                         self.answered += 1
             return orig_on_packet(packet)
 
-        host.on_packet = on_packet
+        # (a bound method of the host called on_packet, so that the loop still recognises the delivery as a message)
+        import types
+
+        host.on_packet = types.MethodType(on_packet, host)
 
     def responses(self, opcode):
         out = []
@@ -905,8 +908,12 @@ def run_noop_case(script_i, kind, count, at, zero_credit=None):
         injected = [False]
         escaped = []
 
+        inj_step = [None]
+        zc_step = [None]
+
         def inject():
             injected[0] = True
+            inj_step[0] = steps[0]
             for _ in range(count):
                 try:
                     host.on_packet(NOOP_EVENTS[kind])
@@ -938,14 +945,18 @@ def run_noop_case(script_i, kind, count, at, zero_credit=None):
                         b = bytearray(b)
                         b[3 if b[1] == 0x0E else 4] = 0
                         handle._args = (bytes(b),)
+                        zc_step[0] = steps[0] - 1  # (steps was already advanced for this handle)
                     responses_seen[0] += 1
             if prev:
                 prev(handle)
 
         w.loop.on_step = on_step
         w.loop.run_quiescent(max_steps=50000)
-        if zero_credit is not None and any(not t.done() for t in tasks):
-            inject()  # the controller re-opens the window at the very end at the latest
+        if zero_credit is not None and any(not t.done() for t in tasks) and (zc_step[0] is None or inj_step[0] is None or inj_step[0] <= zc_step[0]):
+            # the flow-control-only event came BEFORE the response that closed the window (which supersedes it): the
+            # controller re-opens the window at the very end at the latest.  An event that came after the closing
+            # response has re-opened the window by itself: nobody may still be waiting.
+            inject()
             w.loop.run_quiescent(max_steps=50000)
         w.loop.collect_exceptions()
         viol = []
